@@ -16,18 +16,19 @@ import NeumannModel.RaftWal.Model
     entries <rec> <rec> …       RaftRecoveryState::from_entries                          → <state>
     node <id>                   fresh node, empty ghost                                   → <nodestate>
     restart <id> <hexfile>      RaftNode::with_wal on these bytes (ghost kept)            → <nodestate> | err checksum
-    ev elect | rv t c li lt | rvr t | pvr t 0|1 | lead | ae t l pi pt <t.c,…|-> | aer t | prop c
+    ev elect | rv t c li lt | rvr from t 0|1 | prestart | pv t c li lt | pvr from t 0|1 | tnow from t leader
+       | lead | ae t l pi pt <t.c,…|-> | aer t | prop c
        | snap li lt <t.c,…|->   (install_snapshot: metadata index/term, entries 1..n)
                                 → recs=<rec,…|-> reply=<…> state=<nodestate>
     evf <same events>           the handler while every RaftWal::append fails (stepFail)  → same format
-    evfx <same events>          the same with append_leader_entries repaired (stepFailFixed) → same format
     shrink <rec> …              apply the in-flight records' effect on the obligations    → ok
     ghost                       → acted=.. votes=.. acked=..
     save | load <k> | drop_slots  snapshots of (node, ghost), numbered from 0
     frame <hexpayload>          → the record bytes `write_entry_bytes` produces
     sat <hexfile>               obligations evaluated on recover(file)                    → true|false|err checksum
-    wal_new <max> <maxrot>      RaftWal::open_with_config on a fresh path (max_size_bytes, max_rotated_files) → ok
-    wal_append <hexpayload>     RaftWal::append (size check, rotation)   → cur=<hex|-> rot=<hex;hex;…|->
+    wal_new <max> <maxrot> <0|1>  RaftWal::open_with_config on a fresh path (max_size_bytes, max_rotated_files,
+                                auto_rotate) → ok
+    wal_append <hexpayload>     RaftWal::append (size check, rotation)   → cur=<hex|-> rot=<hex;hex;…|-> | err size
     wal_reopen                  drop + open_with_config on the same path (tail repair)    → cur=… rot=…
 -/
 open Neumann Neumann.Proto Neumann.RaftWal
@@ -38,8 +39,7 @@ structure DState where
   ghost : Ghost := {}
   slots : List (Node × Ghost) := []
   wal : WalFiles := {}
-  walMax : Nat := 0
-  walRot : Nat := 0
+  walCfg : WalCfg := { maxSize := 0 }
 
 def junkTag : List Nat := [999999, 0, 0, 0]
 
@@ -104,9 +104,16 @@ def showRState (s : RState) : String :=
 def showRole : Role → String
   | .follower => "F" | .candidate => "C" | .leader => "L"
 
+def sortNats (xs : List Nat) : List Nat :=
+  xs.foldl (fun acc x => (acc.filter (· < x)) ++ [x] ++ (acc.filter (x < ·))) []
+
+/-- `<term>/<votedFor>/<role>/<log> l=<current_leader> pv=<in_pre_vote> votes=<ids> pvotes=<ids>` -/
 def showNode (n : Node) : String :=
   s!"{n.term}/{showOptNat n.votedFor}/{showRole n.role}/" ++
-  showList (n.log.map fun e => s!"{e.index}:{e.term}:{e.cmd}")
+  showList (n.log.map fun e => s!"{e.index}:{e.term}:{e.cmd}") ++
+  s!" l={showOptNat n.leader} pv={if n.inPreVote then 1 else 0}" ++
+  s!" votes={showList ((sortNats n.votesReceived).map toString)}" ++
+  s!" pvotes={showList ((sortNats n.preVotes).map toString)}"
 
 def showReply : Reply → String
   | .none => "none"
@@ -116,6 +123,7 @@ def showReply : Reply → String
   | .notLeader => "notleader"
   | .snapshot ok => s!"snap:{if ok then 1 else 0}"
   | .walFailed => "walfail"
+  | .preVote t => s!"prevote:{t}"
 
 def parsePairs (s : String) : Option (List (Nat × Nat)) :=
   if s = "-" then some [] else
@@ -148,8 +156,12 @@ def parseEvent : List String → Option Event
   | ["elect"] => some .startElection
   | ["rv", t, c, li, lt] => do
       pure (.requestVote (← t.toNat?) (← c.toNat?) (← li.toNat?) (← lt.toNat?))
-  | ["rvr", t] => t.toNat?.map .voteResponse
-  | ["pvr", t, b] => do pure (.preVoteResponse (← t.toNat?) ((← b.toNat?) != 0))
+  | ["rvr", f, t, b] => do pure (.voteResponse (← f.toNat?) (← t.toNat?) ((← b.toNat?) != 0))
+  | ["prestart"] => some .startPreVote
+  | ["pv", t, c, li, lt] => do
+      pure (.preVote (← t.toNat?) (← c.toNat?) (← li.toNat?) (← lt.toNat?))
+  | ["pvr", f, t, b] => do pure (.preVoteResponse (← f.toNat?) (← t.toNat?) ((← b.toNat?) != 0))
+  | ["tnow", f, t, l] => do pure (.timeoutNow (← f.toNat?) (← t.toNat?) (← l.toNat?))
   | ["lead"] => some .becomeLeader
   | ["ae", t, l, pi, pt, es] => do
       pure (.appendEntries (← t.toNat?) (← l.toNat?) (← pi.toNat?) (← pt.toNat?) (← parsePairs es))
@@ -205,12 +217,6 @@ def walStep (st : DState) (line : String) : DState × String :=
         ({ st with node := o.node, ghost := microAllG st.ghost o.micros },
          s!"recs={showList ((recs o.micros).map showRec)} reply={showReply o.reply} state={showNode o.node}")
       | none => bad
-  | "evfx" :: rest => match parseEvent rest with
-      | some e =>
-        let o := stepFailFixed st.node e
-        ({ st with node := o.node, ghost := microAllG st.ghost o.micros },
-         s!"recs={showList ((recs o.micros).map showRec)} reply={showReply o.reply} state={showNode o.node}")
-      | none => bad
   | "shrink" :: rs =>
       let rs := if rs = ["-"] then [] else rs
       match rs.mapM parseRec with
@@ -231,13 +237,15 @@ def walStep (st : DState) (line : String) : DState × String :=
          | .checksumError => (st, "err checksum")
          | .ok s _ _ => (st, toString (SatB s st.ghost)))
       | none => bad
-  | ["wal_new", mx, mr] => match mx.toNat?, mr.toNat? with
-      | some mx, some mr => ({ st with wal := {}, walMax := mx, walRot := mr }, "ok")
-      | _, _ => bad
+  | ["wal_new", mx, mr, au] => match mx.toNat?, mr.toNat?, au.toNat? with
+      | some mx, some mr, some au =>
+        ({ st with wal := {}, walCfg := { maxSize := mx, maxRot := mr, autoRotate := au != 0 } }, "ok")
+      | _, _, _ => bad
   | ["wal_append", h] => match unhex h with
       | some p =>
-        let w := walAppend crc st.walMax st.walRot st.wal p
-        ({ st with wal := w }, showWal w)
+        (match walAppend crc st.walCfg st.wal p with
+         | some w => ({ st with wal := w }, showWal w)
+         | none => (st, "err size"))
       | none => bad
   | ["wal_reopen"] =>
       let w := { st.wal with cur := FramedLog.openRepair st.wal.cur }
